@@ -10,4 +10,5 @@ INVARIANT Passthrough
 INVARIANT ShortCircuit
 INVARIANT CtorLaw
 INVARIANT Unorderable
+INVARIANT HistoryFree
 CHECK_DEADLOCK FALSE
